@@ -61,7 +61,7 @@ class C20(Monitor):
             self.nontrivial = True
         if not s.ok:
             # attribute only when exact
-            if len(s.units) == 1 and s.trailing < 9:
+            if s.exact:
                 i, f, pre = raced[0]
                 # flow control violations are the peer's fault whatever the stream state
                 if f.type == C.DATA and f.fc_len and f.fc_len > s.snap['conn_recv']:
